@@ -9,7 +9,7 @@
 (* fails -- a line the specification does not explain prints a MISMATCH     *)
 (* record naming the violated clause, and the run classifies all lines.     *)
 (***************************************************************************)
-EXTENDS DBusWire, Json, IOUtils, TLC
+EXTENDS DBusWire, GVariantWire, Json, IOUtils, TLC
 
 Rec == ndJsonDeserialize(IOEnv.TRACE)
 \* TLC does not cache Rec: the record of a line is carried in the state so the file is parsed once
@@ -29,6 +29,7 @@ Norm(T, v) ==
     [] T.k = "r" -> [r |-> [i \in 1..Len(v.r) |-> Norm(T.f[i], v.r[i])]]
     [] T.k = "e" -> [r |-> <<Norm(T.key, v.r[1]), Norm(T.val, v.r[2])>>]
     [] T.k = "v" -> [t |-> v.t, v |-> Norm(v.t, v.v)]
+    [] T.k = "m" -> IF v.m = <<>> THEN v ELSE [m |-> <<Norm(T.e, v.m[1])>>]
     [] T.k = "g" -> LET p == ParseSig(v.s, FALSE) IN
                     IF p.ok /\ Len(p.ts) >= 2 THEN [s |-> <<40>> \o v.s \o <<41>>] ELSE [s |-> v.s]
     [] OTHER -> v
@@ -76,10 +77,27 @@ DecChecks(r) ==
       /\ (r.dec.consumed = d.next - 1 \/ Report("dec-consumed", [consumed |-> r.dec.consumed, want |-> d.next - 1]))
   ELSE TRUE
 
+(* --- GVariant Enc lines: C05 (normal-form bytes), C02 (round trip) --- *)
+GvEncChecks(r) ==
+  IF r.outcome # "ok" THEN Report("gv-enc-outcome", r.outcome)
+  ELSE
+    LET exp == GvMarshal(r.T, r.v, r.pos, r.le) IN
+    /\ (r.bytes = exp \/
+          \* explained only by named deviations?  report the smallest explaining set (known-finding key)
+          LET expl == {d \in SUBSET AllGvDevs : GvMarshalD(r.T, r.v, r.pos, r.le, d) = r.bytes}
+              mins == {d \in expl : \A e \in expl : ~(e \subseteq d /\ e # d)}
+          IN Report("gv-enc-bytes", [expected |-> exp, got |-> r.bytes, devs |-> mins]))
+    /\ (r.size = Len(r.bytes) \/ Report("gv-enc-size", [size |-> r.size, written |-> Len(r.bytes)]))
+    /\ (r.type_same \/ Report("gv-enc-type", "value_signature differs from the type it was built for"))
+    /\ IF r.dec.outcome # "ok" THEN Report("gv-rt-outcome", r.dec)
+       ELSE /\ ((r.dec.T = r.T /\ Norm(r.T, r.dec.v) = Norm(r.T, r.v)) \/ Report("gv-rt-value", [got |-> r.dec.v, want |-> r.v]))
+            /\ (r.dec.consumed = Len(r.bytes) \/ Report("gv-rt-consumed", [consumed |-> r.dec.consumed, len |-> Len(r.bytes)]))
+
 LineOk ==
   LET r == rec IN
   CASE r.ev = "Enc" /\ r.fmt = "dbus" -> EncChecks(r)
     [] r.ev = "Dec" /\ r.fmt = "dbus" -> DecChecks(r)
+    [] r.ev = "Enc" /\ r.fmt = "gvariant" -> GvEncChecks(r)
     [] OTHER -> TRUE
 Inv == LineOk \/ TRUE
 =============================================================================
